@@ -148,6 +148,14 @@ def _interpret(impl, case):
     pending_update = False      # an update seen after at least one request
     between = False
     for i, op in enumerate(ops):
+        if isinstance(op, list) and op[0] == "v":
+            # the start in force changes its own value (a start backed by live session state); only
+            # meaningful for the harness' own start class, otherwise the op is a no-op
+            if hasattr(in_force[0], "broken"):
+                for s_ in in_force:
+                    s_._v = op[1]
+                cur = op[1]
+            continue
         if op == "nf" and hasattr(in_force[0], "broken"):
             # a request while the start in force cannot produce its value: either it fails (then it is
             # not a returned number and must not consume a slot) or it returns the right number
@@ -396,7 +404,8 @@ def _strategy():
         st.builds(lambda v: ["flaky", v], st.one_of(st.integers(0, 1756), boundary)),
     )
     setop = st.builds(lambda s: ["s", s], spec)
-    op = st.one_of(st.just("n"), st.just("n"), st.just("n"), setop, st.just("nf"))
+    op = st.one_of(st.just("n"), st.just("n"), st.just("n"), setop, st.just("nf"),
+                   st.builds(lambda v: ["v", v], st.integers(0, 1756)))
     flat = st.integers(0, MAX_STEPS).flatmap(lambda k: st.lists(op, min_size=k, max_size=MAX_STEPS))
     # run-length form: (optional update, then r requests), repeated
     block = st.tuples(st.one_of(st.none(), setop), st.integers(0, 14))
@@ -414,6 +423,30 @@ def run_task(task):
     impl = _Real(c)
     res = TaskResult()
     try:
+        if task["kind"] == "longrun":
+            # "indefinitely": one sequencer is asked more than 253^3 + 25 times (any counter kept in an EO
+            # three, a 24-bit or a 16-bit quantity has wrapped by then), with one update on the way
+            total = task["total"]
+            s0 = impl.build(["from_value", 7])
+            S = impl.Seq(s0)
+            cur = 7
+            nxt = S.next_sequence
+            half = total // 2
+            i = 0
+            for stop, newv in ((half, 1234), (total, None)):
+                while i < stop:
+                    got = nxt()
+                    if got != cur + i % 10:
+                        raise Violation("nth_equals_start_plus_n_mod_10", {"longrun": True, "request": i},
+                                        cur + i % 10, got, f"request number {i} of a long run")
+                    i += 1
+                if newv is not None:
+                    S.set_sequence_start(impl.build(["from_value", newv]))
+                    cur = newv
+            res.evaluations += 1
+            res.extra["longrun_requests"] = total
+            res.nontrivial(["longrun", total])
+            return res
         if task["kind"] == "exh":
             res.shards_total = 1
             _exhaustive(impl, task, res)
@@ -430,8 +463,10 @@ def run_task(task):
                 res.labels["drawn: requests " + _bucket(n)] += 1
                 res.labels["drawn: updates " + ("0" if updates == 0 else "1-3" if updates <= 3 else "4+")] += 1
                 for op in case["ops"]:
-                    if op != "n":
+                    if isinstance(op, list) and op[0] == "s":
                         res.labels["drawn: set via " + op[1][0]] += 1
+                    elif op != "n":
+                        res.labels["drawn: op " + (op if isinstance(op, str) else op[0])] += 1
                 if n >= 11 and between:
                     res.nontrivial(case)
                     res.extra["drawn_nontrivial"] = res.extra.get("drawn_nontrivial", 0) + 1
@@ -451,6 +486,7 @@ def plan(tier, seed):
     per = HYP_N[tier] // HYP_WORKERS
     for w in range(HYP_WORKERS):
         tasks.append({"kind": "hyp", "n": per, "seed": seed * 1000 + w, "w": w})
+    tasks.insert(0, {"kind": "longrun", "total": 253 ** 3 + 25 if tier == "quick" else 2 ** 24 + 2 ** 16 + 25})
     if tier == "thorough":      # long tasks first
         tasks.sort(key=lambda t: t["kind"] != "hyp")
     return tasks
